@@ -18,6 +18,7 @@ CFG = {
                      "IpAddr::from_str is an input of the model (oracle column computed by std itself)",
                      "str::from_utf8 is modelled by Bytes.utf8Valid, usize::from_str by Bytes.parseUsize (both exercised by the run)"],
     "assumptions": ["reads never return 0 bytes before end of stream", "header names reach the code through HeaderType::from(&str)"],
+    "extra_harness": ["harness-tokio"],
     "design_ref": "6.2",
     "level_text": "parse_segmentation_independent: for EVERY byte stream and any two segmentations the model of "
                   "Request::from_stream returns the same request/error/panic and leaves the same bytes unread "
@@ -30,6 +31,6 @@ CFG = {
                   "body, per-name value sequences, address, cookies), with no well-formedness hypothesis. The correspondence "
                   "run additionally judges every case against an independent denotation.",
     "level_note": "Trusted: Lean kernel; Model/Http.lean + Model/IO.lean tied to request.rs/headers.rs/address.rs by the "
-                  "differential run (sync parser; the tokio twin is not yet exercised).",
+                  "differential run: both the threaded parser and (cases req_parse_tokio, through the second harness binary hvt) the tokio twin.",
     "technique": "Lean 4 simulation proof (chunked reader vs flat stream) + differential correspondence with independent denotation",
 }
